@@ -57,6 +57,8 @@ struct Env {
     FILE* out = nullptr;   // rank 0 only
     long long only = -1;   // replay: emit only this case index
     long long counter = 0;
+    FILE* prog = nullptr;  // rank 0: what is about to run (read by check.py after a crash)
+    void about(const char* what) { if (prog) { rewind(prog); fprintf(prog, "%-200s\n", what); fflush(prog); } }
     void init(int argc, char** argv) {
         MPI_Comm_rank(MPI_COMM_WORLD, &rank); MPI_Comm_size(MPI_COMM_WORLD, &np);
         const char* s = getenv("VERIF_SEED"); if (s && *s) seed = atoll(s);
@@ -64,9 +66,10 @@ struct Env {
         const char* o = getenv("VERIF_ONLY"); if (o && *o) only = atoll(o);
         const char* path = argc > 1 ? argv[1] : nullptr;
         if (rank == 0) { out = path ? fopen(path, "w") : stdout;
-            if (!out) { perror("open case file"); MPI_Abort(MPI_COMM_WORLD, 2); } }
+            if (!out) { perror("open case file"); MPI_Abort(MPI_COMM_WORLD, 2); }
+            if (path) { std::string pp = std::string(path) + ".progress"; prog = fopen(pp.c_str(), "w"); } }
     }
-    void finish() { if (out && out != stdout) fclose(out); out = nullptr; }
+    void finish() { if (out && out != stdout) fclose(out); out = nullptr; if (prog) { about("done"); fclose(prog); prog = nullptr; } }
     // every case gets a running index (identical on all ranks); replays select by it
     bool want() { long long c = counter++; return only < 0 || only == c; }
 };
